@@ -237,8 +237,8 @@ fn unknown_item(rng: &mut Rng) -> Item {
 }
 
 const KNOWN: &[u64] = &[
-    0x00, 0x01, 0x02, 0x03, 0x04, 0x05, 0x06, 0x07, 0x08, 0x09, 0x0a, 0x0b, 0x0c, 0x0d, 0x0e,
-    0x0f, 0x10, 0x20,
+    0x00, 0x01, 0x02, 0x03, 0x04, 0x05, 0x06, 0x07, 0x08, 0x09, 0x0a, 0x0b, 0x0c, 0x0d, 0x0e, 0x0f,
+    0x10, 0x20,
 ];
 const SERVER_ONLY: &[u64] = &[tp::ID_ODCID, tp::ID_SRT, tp::ID_PREF, tp::ID_RSCID];
 
@@ -262,7 +262,11 @@ fn encode_items(rng: &mut Rng, items: &[Item], tags: &mut Vec<(u64, &'static str
         }
         let len = it.value.len() as u64;
         if rng.chance(1, 30) {
-            w::put_varint_len(&mut out, len, *rng.pick(&[2usize, 4, 8]).max(&w::varint_len(len)));
+            w::put_varint_len(
+                &mut out,
+                len,
+                *rng.pick(&[2usize, 4, 8]).max(&w::varint_len(len)),
+            );
             tags.push((it.id, "non-minimal-length"));
         } else {
             w::put_varint(&mut out, len);
@@ -332,7 +336,10 @@ pub fn gen_block(rng: &mut Rng) -> Block {
         1 => {
             // over-long length on a trailing item
             w::put_varint(&mut bytes, *rng.pick(KNOWN));
-            w::put_varint(&mut bytes, *rng.pick(&[1u64, 64, 1 << 14, 1 << 30, w::VARINT_MAX]));
+            w::put_varint(
+                &mut bytes,
+                *rng.pick(&[1u64, 64, 1 << 14, 1 << 30, w::VARINT_MAX]),
+            );
             tags.push((u64::MAX, "over-long-length"));
         }
         2 => {
@@ -517,7 +524,12 @@ pub fn check_block(ctx: &mut Ctx, block: &[u8], role: Role) -> (u8, bool) {
             );
             (1, accepted)
         }
-        (Verdict::Reject(why), Err(_)) => {
+        (Verdict::Reject(why), Err(e)) => {
+            if block.len() < 24 {
+                ctx.sample(
+                    || json!({"role": role_str(role), "hex": hex(block), "table": why, "s2n": e}),
+                );
+            }
             ctx.sum.count("rejected_as_expected", 1);
             ctx.sum.count(&format!("reject:{why}"), 1);
             (1, accepted)
@@ -526,7 +538,11 @@ pub fn check_block(ctx: &mut Ctx, block: &[u8], role: Role) -> (u8, bool) {
             ctx.sum.count(
                 &format!(
                     "dontcare:{why}:{}",
-                    if r.is_ok() { "s2n-accepts" } else { "s2n-rejects" }
+                    if r.is_ok() {
+                        "s2n-accepts"
+                    } else {
+                        "s2n-rejects"
+                    }
                 ),
                 1,
             );
@@ -585,7 +601,13 @@ pub fn one(ctx: &mut Ctx, seed: u64, index: u64) {
         mutation = 1 + gen::mutate(&mut rng, &mut block) as u64;
         tags.push((u64::MAX, "mutated"));
     }
-    ctx.sum.count(&format!("inputs:{cname}{}", if mutation != 0 { "-mutated" } else { "" }), 1);
+    ctx.sum.count(
+        &format!(
+            "inputs:{cname}{}",
+            if mutation != 0 { "-mutated" } else { "" }
+        ),
+        1,
+    );
     ctx.sum.count(&format!("role:{}", role_str(role)), 1);
     for (id, t) in &tags {
         if *id == u64::MAX {
@@ -598,7 +620,12 @@ pub fn one(ctx: &mut Ctx, seed: u64, index: u64) {
     }
     let (verdict, accepted) = check_block(ctx, &block, role);
     ctx.sum.count(
-        ["verdict:accept", "verdict:reject", "verdict:dontcare", "verdict:panic"][verdict as usize],
+        [
+            "verdict:accept",
+            "verdict:reject",
+            "verdict:dontcare",
+            "verdict:panic",
+        ][verdict as usize],
         1,
     );
     if block.is_empty() {
@@ -613,7 +640,12 @@ pub fn one(ctx: &mut Ctx, seed: u64, index: u64) {
     let mut ts: Vec<u64> = tags
         .iter()
         .filter(|(_, t)| !matches!(*t, "inside" | "cid" | "srt" | "dam" | "pref"))
-        .map(|(id, t)| mix(if tp::is_known(*id) { *id } else { 0xffff }, vq_util::hash_str(t)))
+        .map(|(id, t)| {
+            mix(
+                if tp::is_known(*id) { *id } else { 0xffff },
+                vq_util::hash_str(t),
+            )
+        })
         .collect();
     ts.sort();
     ts.dedup();
